@@ -53,7 +53,7 @@ ASSUMPTIONS = [
 
 
 def plan(tier: str) -> dict[str, Any]:
-    n = 3000 if tier == "quick" else 150000
+    n = 6000 if tier == "quick" else 600000
     return {"cases": n, "budget_s": 90 if tier == "quick" else 1500, "min_per_shard": 50}
 
 
